@@ -747,10 +747,10 @@ func runDeterminism(c *core.Ctx) {
 					c.Outcome("deviation:same-output")
 				}
 			}
-			if maxDev >= 2 && len(devs) > 120 {
+			if maxDev >= 2 && len(devs) > 450 {
 				c.Note("determinism: pairs of deviations skipped for family %s (values %d): %d single deviations", fams[fi].Name, vi, len(devs))
 			}
-			if maxDev >= 2 && len(devs) <= 120 {
+			if maxDev >= 2 && len(devs) <= 450 {
 				for a := 0; a < len(devs); a++ {
 					for b := a + 1; b < len(devs); b++ {
 						if devs[a].occ == devs[b].occ {
